@@ -146,10 +146,21 @@ def convex_creased(rng):
     return V @ M.T * 2.0 ** -int(np.ceil(np.log2(n)))
 
 
+def convex_chamfered(rng):
+    """A cube of side 16 with one corner cut off 2^-13 from the corner: three distinct vertices 1.7e-4 apart (1e-5 of the size) -
+    well separated in binary64, yet equal under a careless np.isclose with its default relative tolerance."""
+    L, e = 16.0, 2.0 ** -13
+    V = [v for v in itertools.product([0.0, L], repeat=3) if v != (L, L, L)]
+    V += [(L - e, L, L), (L, L - e, L), (L, L, L - e)]
+    return np.array(V, float)
+
+
 def convex_set(rng, allow_place=True, kinds=("ellipsoid", "ellipsoid", "lattice", "prismatic", "flat", "needle")):
     kind = rng.choice(list(kinds))
     if kind == "ellipsoid":
         V = convex_ellipsoid(rng)
+    elif kind == "chamfered":
+        V = convex_chamfered(rng)
     elif kind == "creased":
         V = convex_creased(rng)
     elif kind == "lattice":
